@@ -153,6 +153,8 @@ def install(world):
             return Field('hexN(%s)' % v.term, L(r'[0-9a-f]{5,6}'), 'hexN', v.term)
         raise OutOfSubset('%%04x of %r' % (v,))
     plug.fmt['04x'] = fmt_04x
+    if 'r' not in plug.fmt:
+        plug.fmt['r'] = lambda it, v: Field('repr(%s)' % id(v), SIGMA(), 'text', ('repr', v)) if isinstance(v, Shape) else NotImplemented
 
     def b_ord(it, args, kw):
         from hv.vc.shapes import CharField
